@@ -477,26 +477,21 @@ def check_hooks(config, outcome_class, exp, events, tags, mw_tags,
                             "history %s" % [k for k, _ in hist]))
 
     # ---- MultiInstrumentation order: starts in order, ends reversed -------
-    if len(tags) > 1:
-        i = 0
-        hooks = all_hooks
-        while i < len(hooks):
-            gseq, kind, path, tag = hooks[i]
-            group = [tag]
-            j = i + 1
-            while (j < len(hooks) and hooks[j][1] == kind
-                   and hooks[j][2] == path and len(group) < len(tags)
-                   and hooks[j][3] not in group):
-                group.append(hooks[j][3])
-                j += 1
+    # (grouped by hook and path, not by adjacency: under real threads the
+    # hooks of two fields may interleave in the global log)
+    if len(tags) > 1 and not crashed:
+        order = {}
+        for gseq, kind, path, tag in all_hooks:
+            order.setdefault((kind, path), []).append(tag)
+        for (kind, path), got in order.items():
             want = list(tags) if kind.endswith("_start") else list(tags)[::-1]
-            if group != want and not crashed:
+            if got != want:
                 out.append(Violation(
                     props, "multi_order", (kind,),
-                    "hook %s fired for %s, expected order %s" % (
-                        kind, group, want)))
+                    "hook %s%s fired for %s, expected order %s" % (
+                        kind, "" if path is None else " %r" % (path,), got,
+                        want)))
                 break
-            i = j
 
     # ---- field hooks -------------------------------------------------------
     if exp is not None and outcome_class in ("executed", "crashed",
